@@ -168,7 +168,6 @@ def doLor (c : Cfg) (b : Bin) : String :=
 def fmtRt : RtResult → String
   | .bin b => fmtBin b
   | .miss => "miss"
-  | .undefined => "undefined"
 
 def dedup (l : List String) : List String := l.foldl (fun acc s => if acc.contains s then acc else acc ++ [s]) []
 
@@ -176,13 +175,13 @@ def dedup (l : List String) : List String := l.foldl (fun acc s => if acc.contai
 def doRt (c : Cfg) (b : Bin) : String :=
   if c.arc then
     let g : ArcGeom := { V := c.V, binSize := c.binSizeQ, spacing := c.spacingQ,
-                         offset := 0, minTang := c.minTang, maxTang := c.maxTang, minSeg := c.minSeg, segs := c.segs }
+                         offset := 0, minTang := c.minTang, maxTang := c.maxTang, minSeg := c.minSeg, segs := c.segs, tof := c.tof }
     -- (the azimuthal offset cancels in exact arithmetic; the model is run with offset 0 and with a non-zero offset)
     let g2 := { g with offset := -(1 : Rat) / 12 }
     match g.lorOf b, g2.lorOf b with
     | some l, some l2 =>
-      let r1 := match g.getBin l with | some nb => fmtBin nb | none => "miss"
-      let r2 := match g2.getBin l2 with | some nb => fmtBin nb | none => "miss"
+      let r1 := match g.getBin l (g.deltaTime b.tof) with | some nb => fmtBin nb | none => "miss"
+      let r2 := match g2.getBin l2 (g2.deltaTime b.tof) with | some nb => fmtBin nb | none => "miss"
       if r1 == r2 then r1 else r1 ++ " | " ++ r2
     | _, _ => "none"
   else
@@ -246,7 +245,11 @@ def doBlor (xs : List Rat) : String :=
     | some (a, b, phi, beta, _) =>
       let s := r * Float.sin beta
       let mg := r + z1.abs + z2.abs
-      " ".intercalate [fm ⟨s, mg⟩, fm ⟨phi, 4 * piF⟩, fm ⟨(a + b) / 2, mg⟩, fm ⟨(b - a) / (2 * r), (z1 - z2).abs / r + 1e-3⟩]
+      -- get_tantheta (ProjDataInfoGeneric.inl:79, repaired code, fix C12-4): (z2 - z1) / (2 R cos(beta)), the transaxial
+      -- length of the chord between the two intersections with the cylinder
+      let cb := Float.cos beta
+      " ".intercalate [fm ⟨s, mg⟩, fm ⟨phi, 4 * piF⟩, fm ⟨(a + b) / 2, mg⟩,
+        fm ⟨(b - a) / (2 * r * cb), ((z1 - z2).abs / r + 1e-3) / (cb * cb * cb)⟩]
   | _ => "bad"
 
 def splitBar (t : List String) : List (List String) :=
